@@ -16,7 +16,9 @@ import sysconfig
 import traceback
 import types
 
-from common import Rng
+import json
+
+from common import REPO, Rng
 
 from jaxtyping._import_hook import JaxtypingTransformer, Typechecker
 
@@ -591,11 +593,84 @@ def encoded_module_cases(out):
                           {"encoded": name, "data_hex": data.hex()})
 
 
+LIFETIME_RUNNER = """
+import sys, json, gc, importlib
+root, repo = sys.argv[1], sys.argv[2]
+sys.path[:0] = [root, repo]
+import jaxtyping
+import c10life_plain
+res = {"plain": c10life_plain.run()}
+h1 = jaxtyping.install_import_hook("c10life_hooked", "typeguard.typechecked")
+import c10life_hooked
+res["hooked"] = c10life_hooked.run()
+steps = []
+def probe(what):
+    gc.collect()
+    try:
+        steps.append([what, c10life_hooked.run()])
+    except BaseException as e:
+        steps.append([what, "raised " + type(e).__name__ + ": " + str(e)[:80]])
+# another hook with the same typechecker string comes and goes without loading anything
+with jaxtyping.install_import_hook("c10life_plain", "typeguard.typechecked"):
+    pass
+probe("after a second hook with the same typechecker was installed and removed")
+h2 = jaxtyping.install_import_hook("c10life_nothing", "typeguard.typechecked"); h2.uninstall(); del h2
+probe("after a third one was installed, uninstalled and dropped")
+h1.uninstall(); del h1
+probe("after the module's own hook was uninstalled and dropped")
+with jaxtyping.install_import_hook("c10life_nothing", None):
+    pass
+probe("after a hook with another typechecker came and went")
+res["steps"] = steps
+print(json.dumps(res))
+"""
+
+LIFETIME_MODULE = '''def make(k: int):
+    def add(x: int) -> int:      # a definition that is EXECUTED each time make() runs: so is the decorator placed on it
+        return x + k
+    return add
+class Outer:
+    def build(self, k: int):
+        class Local:
+            def get(self, x: int) -> int:
+                return x * k
+        return Local()
+def run():
+    return [make(2)(3), Outer().build(2).get(3), make(5)(1)]
+'''
+
+
+def lookup_lifetime_cases(out):
+    """definitions nested in functions are decorated every time the enclosing function runs — long after the import: a
+    hooked module keeps behaving like the plain one whatever happens to hooks afterwards (other hooks with the same or
+    another typechecker installed, removed and garbage-collected, its own hook removed)"""
+    import subprocess
+
+    from common import PY, scratch_dir
+
+    with scratch_dir("jaxverif_c10life_") as root:
+        for name in ("c10life_plain", "c10life_hooked"):
+            with open(os.path.join(root, name + ".py"), "w") as fh:
+                fh.write(LIFETIME_MODULE)
+        r = subprocess.run([PY, "-c", LIFETIME_RUNNER, root, REPO], capture_output=True, text=True, timeout=300, env=dict(os.environ, PYTHONDONTWRITEBYTECODE="1"))
+        try:
+            got = json.loads(r.stdout.strip().splitlines()[-1])
+        except Exception:  # noqa: BLE001
+            out.violation("lookup-lifetime:run-failed", f"the run failed: {r.stderr[-400:]}", {"lookup_lifetime": True})
+            return
+    out.case(("lookup-lifetime",), True, sample=got)
+    bad = [st for st in [["right after the import", got.get("hooked")]] + got.get("steps", []) if st[1] != got.get("plain")]
+    if bad:
+        out.violation("lookup-lifetime", f"a hooked module whose functions define functions / classes when CALLED gives {bad[0][1]} {bad[0][0]}; the plain module gives {got.get('plain')}",
+                      {"lookup_lifetime": bad[0][0]})
+
+
 def run(tier, seed, out, drv, facts):
     import warnings
 
     warnings.filterwarnings("ignore", category=SyntaxWarning)     # corpus files with invalid escapes etc.: not our concern
     encoded_module_cases(out)
+    lookup_lifetime_cases(out)
     rng = Rng(seed, "C10")
     thorough = tier == "thorough"
     sys.setrecursionlimit(max(sys.getrecursionlimit(), 5000))
@@ -691,6 +766,12 @@ def extra_coverage():
 
 
 def replay(rep, out, drv, facts):
+    if "lookup_lifetime" in rep:
+        lookup_lifetime_cases(out)
+        return
+    if "encoded" in rep:
+        encoded_module_cases(out)
+        return
     if "source" in rep:
         validate(out, drv, rep["source"], rep.get("path", "<replay>"), "generated")
     else:
